@@ -103,7 +103,7 @@ class EngineLineCropper(object):
         backward_mapping = np.zeros_like(sample_positions)
         forward_position = 0
         for i in range(sample_positions.shape[0]):
-            while forward_mapping[forward_position] > sample_positions[i]:
+            while forward_mapping[forward_position] < sample_positions[i]:  # advance to the first node at or beyond the sample (arc-length inverse)
                 forward_position += 1
             d = forward_mapping[forward_position] - forward_mapping[forward_position-1]
             da = (sample_positions[i] - forward_mapping[forward_position-1]) / d
